@@ -93,6 +93,101 @@ def module_inventory (tree):
     if isinstance(s, ast.ClassDef): out['<class %s>' % s.name] = assigned(s.body)
   return out
 
+# ---------------------------------------------------------------- N0 alpha-normalisation against the reference skeleton
+_SKEL = None
+def skeletons ():
+  global _SKEL
+  if _SKEL is None:
+    p = os.path.join(V, 'spec', 'skeletons.json')
+    _SKEL = json.load(open(p)) if os.path.exists(p) else {}
+  return _SKEL
+
+def _bound_names (fn):
+  """names bound anywhere inside fn (own scope and nested scopes) except fn's own parameters and global/nonlocal names"""
+  out = set(); excl = set(params_of(fn))
+  for n in ast.walk(fn):
+    if n is fn: continue
+    if isinstance(n, ast.Name) and isinstance(n.ctx, (ast.Store, ast.Del)): out.add(n.id)
+    elif isinstance(n, ast.ExceptHandler) and n.name: out.add(n.name)
+    elif isinstance(n, FUNC): out.add(n.name)
+    elif isinstance(n, ast.arg): out.add(n.arg)
+    elif isinstance(n, (ast.Global, ast.Nonlocal)): excl.update(n.names)
+  # parameters of nested functions/lambdas that are passed by keyword somewhere cannot be renamed safely: keep it simple
+  # and leave every nested parameter that also occurs as a keyword name alone
+  kws = set(k.arg for n in ast.walk(fn) if isinstance(n, ast.Call) for k in n.keywords if k.arg)
+  nested_params = set(a.arg for n in ast.walk(fn) if n is not fn and isinstance(n, FUNC + (ast.Lambda,)) for a in ast.walk(n.args) if isinstance(a, ast.arg))
+  return out - excl - (nested_params & kws)
+
+def function_skeleton (fn):
+  """(digest, names): fn with every bound name replaced by its order of first appearance; docstrings ignored"""
+  import hashlib
+  B = _bound_names(fn)
+  order = {}
+  def idx (name):
+    if name not in order: order[name] = len(order)
+    return '\x00L%d' % order[name]
+  cp = copy.deepcopy(fn)
+  own_params = set(params_of(fn))
+  def walk (n, top):
+    if isinstance(n, ast.Name) and n.id in B: n.id = idx(n.id)
+    elif isinstance(n, ast.ExceptHandler) and n.name and n.name in B: n.name = idx(n.name)
+    elif isinstance(n, FUNC) and not top and n.name in B: n.name = idx(n.name)
+    elif isinstance(n, ast.arg) and n.arg in B and n.arg not in own_params: n.arg = idx(n.arg)
+    elif isinstance(n, ast.arg) and n.arg in B: pass
+    for f, v in ast.iter_fields(n):
+      if isinstance(v, list):
+        if f == 'body' and v and isinstance(v[0], ast.Expr) and isinstance(v[0].value, ast.Constant) and isinstance(v[0].value.value, str) and isinstance(n, FUNC + (ast.ClassDef,)):
+          v = v[1:]; setattr(n, f, v)
+        for x in v:
+          if isinstance(x, ast.AST): walk(x, False)
+      elif isinstance(v, ast.AST): walk(v, False)
+  walk(cp, True)
+  names = [k for k, _ in sorted(order.items(), key=lambda kv: kv[1])]
+  return hashlib.sha1(ast.dump(cp, annotate_fields=False).encode()).hexdigest()[:16], names
+
+def module_skeletons (tree):
+  out = {}
+  def visit (body, prefix):
+    for s in body:
+      if isinstance(s, FUNC):
+        d, names = function_skeleton(s)
+        out[prefix + s.name] = {'h': d, 'n': names}
+      elif isinstance(s, ast.ClassDef): visit(s.body, prefix + s.name + '.')
+      elif isinstance(s, (ast.If, ast.Try)):
+        for f in ('body', 'orelse', 'finalbody'): visit(getattr(s, f, []) or [], prefix)
+        for h in getattr(s, 'handlers', []): visit(h.body, prefix)
+  visit(tree.body, '')
+  return out
+
+def alpha_rename (tree, modname):
+  """N0: a function whose shape is exactly the reference function's and that differs only in how its locals are called gets the
+  reference names back (pure renaming of locals).  Returns the number of functions renamed."""
+  ref = skeletons().get(modname)
+  if not ref: return 0
+  n = 0
+  def visit (body, prefix):
+    nonlocal n
+    for s in body:
+      if isinstance(s, FUNC):
+        r = ref.get(prefix + s.name)
+        if r is None: continue
+        d, names = function_skeleton(s)
+        if d != r['h'] or names == r['n'] or len(names) != len(r['n']): continue
+        m = dict((a, b) for a, b in zip(names, r['n']) if a != b)
+        own_params = set(params_of(s))
+        for x in ast.walk(s):
+          if isinstance(x, ast.Name) and x.id in m: x.id = m[x.id]
+          elif isinstance(x, ast.ExceptHandler) and x.name in m: x.name = m[x.name]
+          elif isinstance(x, FUNC) and x is not s and x.name in m: x.name = m[x.name]
+          elif isinstance(x, ast.arg) and x.arg in m and x.arg not in own_params: x.arg = m[x.arg]
+        n += 1
+      elif isinstance(s, ast.ClassDef): visit(s.body, prefix + s.name + '.')
+      elif isinstance(s, (ast.If, ast.Try)):
+        for f in ('body', 'orelse', 'finalbody'): visit(getattr(s, f, []) or [], prefix)
+        for h in getattr(s, 'handlers', []): visit(h.body, prefix)
+  visit(tree.body, '')
+  return n
+
 # ---------------------------------------------------------------- N1 desugar
 class _Desugar(ast.NodeTransformer):
   def visit_Compare (self, n):
@@ -1244,13 +1339,14 @@ def inline_new_constants (tree, inv):
 # ---------------------------------------------------------------- driver
 def normalize_module (tree, modname, stats=None):
   inv = inventory().get(modname)
+  n_alpha = alpha_rename(tree, modname)
   tree = _Desugar().visit(tree)
   def split (body):
     for s in body:
       if isinstance(s, FUNC): s.body = _split_ifexp(s.body)
       elif isinstance(s, ast.ClassDef): split(s.body)
   split(tree.body)
-  info = {'inlined': [], 'expanded': 0}
+  info = {'inlined': [], 'expanded': 0, 'alpha': n_alpha}
   if inv is not None and module_inventory(tree) == inv:
     inv = None          # nothing new in this module: analysed as written
   if inv is not None:
